@@ -202,6 +202,8 @@ def run_driver(sub, items, profile="dev", shards=None, timeout=300, tag="run", e
     Returns list of records parallel to items. Raises Inconclusive on watchdog expiry."""
     from concurrent.futures import ThreadPoolExecutor
     binp = build_driver(profile)
+    # the wall-clock watchdog only ever yields "inconclusive": keep it generous, the machine may be loaded
+    timeout = max(timeout, 1800)
     n = len(items)
     if n == 0:
         return []
